@@ -132,6 +132,8 @@ Step ==
                /\ owed' = IF busy /\ r.new # "Running" THEN owed \ {b} ELSE owed
                /\ armed' = IF busy THEN armed \ {b} ELSE armed
                /\ UNCHANGED <<scen, busyKind, nthreads, inBusy, quickSeen, s1, s2, sigs, nscan, t0, longBusy, sysPend>>
+       [] ev = "storm_done" ->
+            UNCHANGED <<scen, busyKind, nthreads, nviol, inBusy, quickSeen, suspended, first, runOn, period, armed, owed, s1, s2, sigs, nscan, t0, longBusy, sysPend>>
        [] ev = "sys_sig_b" ->
             /\ sysPend' = sysPend \cup {r.own}
             /\ UNCHANGED <<scen, busyKind, nthreads, nviol, inBusy, quickSeen, suspended, first, runOn, period, armed, owed, s1, s2, sigs, nscan, t0, longBusy>>
